@@ -37,7 +37,7 @@ class P(FlowFidelity):
             body = b""
             for _ in range(rng.choice([1, 2, 4])):
                 w, _ = g.rand_record(t)
-                if directed and t.specs()[-1][2] not in (65535,) and len(w) >= 12:
+                if directed and all(sp[2] != 65535 for sp in t.specs()) and len(w) >= 12:   # fixed-length records only: a splice must not hit a length prefix
                     # make the record's octets look like the set header + record of another installed template
                     t2 = rng.choice(tpls)[0]
                     fake = struct.pack(">HH", t2.tid, 4 + 8) + bytes([66] * 8)
